@@ -58,7 +58,12 @@ def cases(run: Run):
         if rng.random() < 0.35 and e + 2.0 < span - 2.0:
             k_end = int(e // dt)  # the step [k_end*dt, (k_end+1)*dt] contains the end of the first burn
             hi = min(span - 1.5, (k_end + 1) * dt - 0.5) if rng.random() < 0.7 else span - 1.5
-            if hi > e + 1.0:
+            if rng.random() < 0.35:
+                # the second burn begins at the very instant the first one ends (a piecewise thrust profile), queued before or after it
+                e2 = round(min(span - 1.0, e + rng.uniform(0.5, 1.5 * dt)) * 64) / 64
+                if e2 - e >= 0.25:
+                    c.update(s2=e, e2=e2, thrust2=rng.choice(["eci", "ntw", "spiral", "plane"]), queue=rng.choice(["fwd", "rev"]))
+            elif hi > e + 1.0:
                 s2 = round(rng.uniform(e + 0.5, hi) * 64) / 64
                 e2 = round(min(span - 1.0, s2 + rng.uniform(0.5, 1.5 * dt)) * 64) / 64
                 if e2 - s2 >= 0.25:
@@ -115,6 +120,8 @@ def impl_run(c):
     if "s2" in c:
         f2, cls2 = thrust_func(c["thrust2"])
         burns.append((c["s2"] + c["late"], c["e2"] + c["late"], f2, ScheduledFiniteBurn if cls2 == "burn" else ScheduledFiniteManeuver))
+    if c.get("queue") == "rev":
+        burns.reverse()  # the later burn is queued first
     dyn = make_dynamics(c["model"])
     pushed = []
     old = ft.EventStack.pushEvent
@@ -125,6 +132,7 @@ def impl_run(c):
     # every callback of every burn, in the order in which the propagator makes them: (call, burn index, time, thrust installed?)
     callbacks = []
     ends = []
+    queues = []
     orig_cb = ft.ScheduledFiniteThrust.getStateChangeCallback
     step_now = [0]
 
@@ -146,6 +154,8 @@ def impl_run(c):
             Agent.prunePropagateEvents(agent)
             n0 = len(pushed)
             step_now[0] = k
+            # the burns as they stand in the queue handed to the propagator in this call (an equal event may stand there more than once)
+            queues.append([min(range(len(burns)), key=lambda j: abs(float(ev.start_time) - burns[j][0])) for ev in agent.propagate_event_queue])
             x = dyn.propagate(ScenarioTime(t0), ScenarioTime(t1), x, scheduled_events=agent.propagate_event_queue)
             for rec in pushed[n0:]:
                 msg = str(getattr(rec, "description", getattr(rec, "event", rec)))
@@ -163,7 +173,7 @@ def impl_run(c):
     T0, T1 = float(c["late"]), float(c["late"] + N * dt)
     y = x0_of(c["orbit"]).copy()
     t_now = T0
-    for bs, be, bf, _ in burns:
+    for bs, be, bf, _ in sorted(burns, key=lambda b: b[0]):
         if bs > t_now:
             y = ref.propagate(ScenarioTime(t_now), ScenarioTime(bs), y)
         ref.finite_thrust = bf
@@ -174,7 +184,8 @@ def impl_run(c):
     y = ref.propagate(ScenarioTime(t_now), ScenarioTime(T1), y) if t_now < T1 else y
     coast = make_dynamics(c["model"]).propagate(ScenarioTime(T0), ScenarioTime(T1), x0_of(c["orbit"]).copy())
     return {"final": [float(v) for v in x], "ref": [float(v) for v in y], "coast": [float(v) for v in coast], "switches": switches,
-            "callbacks": callbacks, "ends": ends}
+            "callbacks": callbacks, "ends": ends, "queues": queues,
+            "burn_times": [(float(b[0]), float(b[1])) for b in burns]}
 
 
 def intervals_from_switches(c, sw):
@@ -199,19 +210,30 @@ def intervals_from_switches(c, sw):
     return out
 
 
-def compare_timeline(c, line, impl):
+def timeline_lines(c, impl):
+    """one model line per propagation call: the burns in the order of the queue the real propagator was given in that call"""
+    lines = []
+    for k, q in enumerate(impl["queues"], start=1):
+        t0, t1 = Fraction(c["late"]) + Fraction(c["dt"]) * (k - 1), Fraction(c["late"]) + Fraction(c["dt"]) * k
+        bs = [impl["burn_times"][j] for j in q]
+        lines.append(f"burn.timeline {len(bs)} " + " ".join(f"{fmt(Fraction(a))} {fmt(Fraction(b))}" for a, b in bs) + f" 2 {fmt(t0)} {fmt(t1)}")
+    return lines
+
+
+def compare_timeline(c, outs, impl):
     """the callbacks the real propagator made in each call against the model's timeline; None when they agree"""
-    if line.startswith("bad-op"):
-        return ("ok", line)
-    calls = line.split()
-    for k, tok in enumerate(calls, start=1):
+    for k, (tok, q) in enumerate(zip(outs, impl["queues"]), start=1):
+        if tok.startswith("bad-op"):
+            return ("ok", tok)
         items, end = tok.split(";end=")
-        want = [] if items == "-" else [(float(Fraction(it.split("=")[0])), it.split("=")[1]) for it in items.split(",")]
-        got = [(t, str(j) if on else "off") for (kk, j, t, on) in impl["callbacks"] if kk == k]
+        # the model names a burn by its first position in the queue of this call
+        name = lambda pos: str(q[int(pos)]) if pos not in ("off", "?") else pos
+        want = [] if items == "-" else [(float(Fraction(it.split("=")[0])), it.split("=")[1][0] + name(it.split("=")[1][1:])) for it in items.split(",")]
+        got = [(t, ("+" if on else "-") + str(j)) for (kk, j, t, on) in impl["callbacks"] if kk == k]
         if len(want) != len(got) or any(abs(w[0] - g[0]) > 1e-6 or w[1] != g[1] for w, g in zip(want, got)):
-            return (f"call {k}: callbacks {got}", f"model {want}")
-        if str(impl["ends"][k - 1]) != end:
-            return (f"call {k}: slot at the end of the call {impl['ends'][k - 1]}", f"model {end}")
+            return (f"call {k} (queue {q}): callbacks {got}", f"model {want}")
+        if str(impl["ends"][k - 1]) != name(end):
+            return (f"call {k}: slot at the end of the call {impl['ends'][k - 1]}", f"model {name(end)}")
     return None
 
 
@@ -242,19 +264,20 @@ def run_cases(run: Run, cs):
         ts = [Fraction(c["late"]) + Fraction(c["dt"]) * k for k in range(c["N"] + 1)]
         lines.append(f"burn.calls phaseSwitch {fmt(Fraction(c['s']) + c['late'])} {fmt(Fraction(c['e']) + c['late'])} {len(ts)} " + " ".join(fmt(t) for t in ts))
     # the one-slot model of all the agent's burns: the callbacks of every call, in order, and the slot at the end of the call
-    for c in cs:
-        ts = [Fraction(c["late"]) + Fraction(c["dt"]) * k for k in range(c["N"] + 1)]
-        bs = [(Fraction(c["s"]) + c["late"], Fraction(c["e"]) + c["late"])] + ([(Fraction(c["s2"]) + c["late"], Fraction(c["e2"]) + c["late"])] if "s2" in c else [])
-        lines.append(f"burn.timeline {len(bs)} " + " ".join(f"{fmt(a)} {fmt(b)}" for a, b in bs) + f" {len(ts)} " + " ".join(fmt(t) for t in ts))
+    spans = []
+    for c, i in zip(cs, impls):
+        ls = timeline_lines(c, i[1]) if i[0] == "ok" else []
+        spans.append((len(lines), len(ls)))
+        lines.extend(ls)
     outs_all = run.model(lines)
     outs = outs_all[:len(cs)] if outs_all is not None else None
     for idx, (c, i) in enumerate(zip(cs, impls)):
         if outs_all is not None and i[0] == "ok":
             run.model_compared += 1
-            d = compare_timeline(c, outs_all[len(cs) + idx], i[1])
+            d = compare_timeline(c, outs_all[spans[idx][0]:spans[idx][0] + spans[idx][1]], i[1])
             if d:
                 run.disagree("burn.timeline", c, d[0], d[1])
-        run.case("burn", c, nontrivial=True, branch=f"{c['kind']}:{c['model']}" + (":two-burns" if "s2" in c else ""))
+        run.case("burn", c, nontrivial=True, branch=f"{c['kind']}:{c['model']}" + (":two-burns" if "s2" in c else "") + (":back-to-back-" + c["queue"] if "queue" in c else ""))
         if outs is not None and i[0] == "ok" and "s2" not in c:  # the per-call interval model is for one burn; two-burn cases are judged on the trajectory
             run.model_compared += 1
             mo = outs[idx].split()
